@@ -23,6 +23,7 @@ import (
 
 	"github.com/tikv/pd/pkg/verifshim/vclock"
 	"github.com/tikv/pd/server/election"
+	"go.etcd.io/etcd/clientv3"
 	"verif/engine/evidence"
 	"verif/engine/fakeetcd"
 )
@@ -59,6 +60,9 @@ func kaRun(g int, fates []int) (res kaResult) {
 	const key = "/pd/7/leader"
 	a := election.NewLeadership(st.Client(), key, "verif-a")
 	b := election.NewLeadership(st.Client(), key, "verif-b")
+	// c campaigns the way allocator elections do: with an extra comparison of its own
+	c := election.NewLeadership(st.Client(), key, "verif-c")
+	extra := clientv3.Compare(clientv3.CreateRevision("/pd/7/next-leader"), "=", 0)
 	label := fmt.Sprintf("grant=%d fates=%v", g, fates)
 	replay := append([]int{g}, fates...)
 	bad := func(k, m string) {
@@ -123,6 +127,12 @@ func kaRun(g int, fates []int) (res kaResult) {
 		aOwns := present && v == "a"
 		if a.Check() && !aOwns {
 			bad("holder-outlives-etcd-lease", fmt.Sprintf("%s (virtual +%v): the member still believes it holds the lease (local deadline %v) although etcd has expired it", when, vclock.Base().Sub(vclock.Epoch), a.VerifLeaseExpireTime().Sub(vclock.Epoch)))
+		}
+		if present {
+			if err := c.Campaign(kaTTL, "c", extra); err == nil {
+				bad("campaign-over-live-leader", when+": a campaign that carries an extra comparison succeeded while a leader record existed")
+				c.Reset()
+			}
 		}
 		if !bLeads {
 			err := b.Campaign(kaTTL, "b")
